@@ -1942,3 +1942,9 @@ mod tests {
         );
     }
 }
+
+#[cfg(kani)]
+#[allow(warnings, clippy::all, clippy::pedantic)]
+mod verif_kani {
+    include!(concat!(env!("IPA_VERIF_DIR"), "/harness/dzkp_validator.rs"));
+}
